@@ -448,7 +448,8 @@ def eval_strategy(max_len):
         labs = spans.labels(desc)
         n = len(labs)
         kind = desc['k']
-        names = draw(st.sampled_from([['X', 'Y'], ['X', 'Y', 'Z'], ['X', 'lag'], ['exp', 'Y'], ['X']]))
+        names = draw(st.sampled_from([['X', 'Y'], ['X', 'Y', 'Z'], ['X', 'lag'], ['exp', 'Y'], ['X'],
+                                      ['\u03b1', 'Y'], ['X', '\u0394Y', 'Y\u00e9'], ['x_1', '_u']]))
         vars_ = [[nm, draw(st.lists(values, min_size=n, max_size=n))] for nm in names]
         user_locals = None
         loc_kind = draw(st.sampled_from(['none', 'none', 'new', 'shadow-var', 'shadow-helper']))
